@@ -219,6 +219,7 @@ type EntryFault struct {
 	Mode    string `json:"mode"`
 	K       int    `json:"k,omitempty"`
 	Persist bool   `json:"persist,omitempty"` // every attempt at the statement during the armed attempt fails
+	Err     string `json:"err,omitempty"`     // error value (fakech.CtrlErrorKinds); over the wire: exception code + message, or a dropped connection
 }
 
 // Injector arms EntryFaults on the databases of a World.
@@ -237,13 +238,14 @@ type Injector struct {
 	AdminN     int // admin calls seen in this attempt
 	FiredAdmin int
 	idx        map[string]int // key -> position in Order
+	kindOf     map[*fakech.CtrlCall]string
 	// Hook is installed as AfterApply on every database.
 	Hook func(key string, c *fakech.CtrlCall, cat *fakech.CtrlCatalog)
 }
 
 // NewInjector wires the faults into the world (existing and future databases).
 func NewInjector(w *World, faults []EntryFault) *Injector {
-	in := &Injector{w: w, faults: faults, idx: map[string]int{}, Armed: true}
+	in := &Injector{w: w, faults: faults, idx: map[string]int{}, Armed: true, kindOf: map[*fakech.CtrlCall]string{}}
 	in.state = make([]struct {
 		target string
 		failed int
@@ -255,6 +257,12 @@ func NewInjector(w *World, faults []EntryFault) *Injector {
 	w.Farm.OnCreate = func(key string, conn *fakech.CtrlConn) {
 		conn.BeginRun()
 		conn.Decide = func(c *fakech.CtrlCall) fakech.CtrlFaultMode { return in.decide(key, c) }
+		conn.FaultErr = func(c *fakech.CtrlCall) error {
+			in.mu.Lock()
+			k := in.kindOf[c]
+			in.mu.Unlock()
+			return fakech.CtrlPanelError(k, c)
+		}
 		conn.AfterApply = func(c *fakech.CtrlCall, cat *fakech.CtrlCatalog) {
 			if in.Hook != nil {
 				in.Hook(key, c, cat)
@@ -278,6 +286,13 @@ func NewInjector(w *World, faults []EntryFault) *Injector {
 		return nil
 	}
 	return in
+}
+
+// KindOf returns the error kind an injected fault returned for call c ("" = plain).
+func (in *Injector) KindOf(c *fakech.CtrlCall) string {
+	in.mu.Lock()
+	defer in.mu.Unlock()
+	return in.kindOf[c]
 }
 
 // Begin starts attempt n: every existing database starts a new run.
@@ -322,6 +337,7 @@ func (in *Injector) decide(key string, c *fakech.CtrlCall) fakech.CtrlFaultMode 
 		}
 		st.failed++
 		in.Fired = append(in.Fired, c)
+		in.kindOf[c] = f.Err
 		if f.Mode == "after" {
 			return fakech.CtrlFailAfter
 		}
@@ -335,7 +351,7 @@ func GenEntryFaults(rt *rapid.T, ndb int, maxAt int) []EntryFault {
 	var out []EntryFault
 	n := rapid.SampledFrom([]int{0, 1, 1, 2}).Draw(rt, "nfaults")
 	for i := 0; i < n; i++ {
-		f := EntryFault{Mode: rapid.SampledFrom([]string{"before", "after"}).Draw(rt, "fmode")}
+		f := EntryFault{Mode: rapid.SampledFrom([]string{"before", "after"}).Draw(rt, "fmode"), Err: rapid.SampledFrom(fakech.CtrlErrorKinds).Draw(rt, "errkind")}
 		if i > 0 {
 			f.Attempt = rapid.IntRange(0, 1).Draw(rt, "attempt") // the restart after the first fault
 		}
